@@ -92,7 +92,7 @@ def build_inputs(ex, mk, N, flags, mode, perm):
     return ws, vals, freq, sel
 
 
-def check_new(rep, db, N, flags, mode, perm):
+def check_new(rep, db, N, flags, mode, perm, with_thresholds=False):
     """Schedule::new: canonical result independent of input order, exact error conditions, exact weights."""
     mk = Mk(db, CR)
     ex = Exec(db, loop_bound=N + 3)
@@ -101,7 +101,11 @@ def check_new(rep, db, N, flags, mode, perm):
     def body(ex):
         ws, vals, freq, sel = build_inputs(ex, mk, N, flags, mode, perm)
         r = ex.call_by_name(r'.*schedule::Schedule::new::<std::vec::Vec<.*ValidatorInfo>>', [M.VecV(vals), sel])
-        return ws, freq, r
+        if with_thresholds and r.variant == 0:
+            # the thresholds a Schedule reports are those of its TOTAL weight (all validators, leaders or not)
+            sref = Ref(Cell(r.fields[0]))
+            ex.thr = tuple(ex.call_by_name(r'zksync_consensus_roles::validator::messages::schedule::Schedule::' + nm, [sref]) for nm in ('max_faulty_weight', 'quorum_threshold', 'subquorum_threshold'))
+        return ws, freq, r, (getattr(ex, 'thr', None) if with_thresholds and r.variant == 0 else None)
     res = explore(ex, body)
     rep.absorb_stats(ex.stats)
     viol = []
@@ -110,7 +114,7 @@ def check_new(rep, db, N, flags, mode, perm):
         if kind == 'panic':
             st, m = solve(pc, None)
             viol.append((panic_key(val), f'Schedule::new panics: {val[0]} at {val[1]}', m, None)); continue
-        ws, freq, r = val
+        ws, freq, r, thr = val
         total = sum((w.e for w in ws[1:]), ws[0].e)
         valid = z3.And(*[w.e > 0 for w in ws], total <= 2**64 - 1, z3.BoolVal(any(flags)))
         if r.variant == 1:
@@ -139,6 +143,12 @@ def check_new(rep, db, N, flags, mode, perm):
         st, m = solve(pc, z3.Not(z3.And(*conds)))
         if st == 'sat': viol.append(('new-wrong-schedule', 'Schedule::new accepts an invalid committee or stores wrong weights/sums', m, ws))
         elif st != 'unsat': raise Unmodelled('solver unknown')
+        if thr is not None:
+            f = (total - 1) / 5
+            tc = z3.And(thr[0].e == f, thr[1].e == total - f, thr[2].e == total - 3 * f)
+            st, m = solve(pc, z3.Not(tc))
+            if st == 'sat': viol.append(('schedule-thresholds', 'the thresholds reported by the Schedule (max_faulty_weight / quorum_threshold / subquorum_threshold methods) are not those of its total weight', m, ws))
+            elif st != 'unsat': raise Unmodelled('solver unknown')
     rep.nontrivial += nontriv
     return res, viol
 
@@ -254,6 +264,11 @@ fn replay() {{
     // canonical order
     let got: Vec<_> = schedule.iter().map(|v| v.key.clone()).collect();
     assert_eq!(got, keys, "schedule is not key-sorted");
+    // thresholds are those of the TOTAL weight (u128 arithmetic as the reference)
+    let total: u128 = weights.iter().map(|&w| w as u128).sum();
+    assert_eq!(schedule.total_weight() as u128, total, "total weight");
+    let f = (total - 1) / 5;
+    assert_eq!((schedule.max_faulty_weight() as u128, schedule.quorum_threshold() as u128, schedule.subquorum_threshold() as u128), (f, total - f, total - 3 * f), "schedule thresholds are not those of the total weight");
     let leader = schedule.view_leader(ViewNumber(view));   // must not panic
     let idx = schedule.index(&leader).expect("leader is a member");
     assert!(flags[idx], "leader not eligible");
